@@ -173,6 +173,8 @@ func main() {
 		fmt.Printf("API W=%v\n", sortedKeys(L.v.eff.api.W))
 	case "dump":
 		os.Exit(cmdDump(os.Args[2:]))
+	case "replay":
+		os.Exit(cmdReplay(os.Args[2:]))
 	default:
 		fmt.Fprintln(os.Stderr, "unknown command", os.Args[1])
 		os.Exit(2)
@@ -257,4 +259,51 @@ func writeJSON(path string, v interface{}) error {
 	}
 	os.MkdirAll(filepath.Dir(path), 0755)
 	return os.WriteFile(path, append(b, '\n'), 0644)
+}
+
+// cmdReplay prints a replay file and re-runs the witness searches of the obligation it names.
+func cmdReplay(args []string) int {
+	if len(args) < 1 {
+		fmt.Fprintln(os.Stderr, "usage: jvc replay <replay file>")
+		return 2
+	}
+	b, err := os.ReadFile(args[0])
+	if err != nil {
+		fmt.Fprintln(os.Stderr, err)
+		return 2
+	}
+	fmt.Print(string(b))
+	ob := ""
+	for _, ln := range strings.Split(string(b), "\n") {
+		if strings.HasPrefix(ln, "obligation: ") {
+			ob = strings.TrimSpace(strings.TrimPrefix(ln, "obligation: "))
+			break
+		}
+	}
+	if ob == "" {
+		return 0
+	}
+	unit, _, _ := strings.Cut(ob, "#")
+	failed := false
+	done := map[string]bool{}
+	for _, w := range loadWitnesses() {
+		if w.Obligation != ob && !strings.HasPrefix(w.Obligation, unit+"#") {
+			continue
+		}
+		if done[w.File+"/"+w.Test] {
+			continue
+		}
+		done[w.File+"/"+w.Test] = true
+		out, f, err := runOverlayTest(w.File, w.Test, nil)
+		fmt.Printf("\n=== re-running witness search %s (%s) against %s ===\n%s\n", w.Test, w.File, repoDir, out)
+		if err == nil && f {
+			failed = true
+		}
+	}
+	if failed {
+		fmt.Println("replay: the real code misbehaves (witness search failed)")
+		return 1
+	}
+	fmt.Println("replay: no failing input found on the current tree")
+	return 0
 }
